@@ -80,7 +80,7 @@ fn hand_redeemers(r: &Redeemers) -> Vec<u8> {
         }
     }
 }
-/// the ledger's preimage for the fields of a ScriptData value
+/// the ledger's preimage for the fields of a ScriptData value (`d` = the datum bytes expected)
 fn hand_preimage(r: &Option<Redeemers>, d: &Option<Vec<u8>>, lv: &Option<BTreeMap<u8, Vec<i64>>>) -> Vec<u8> {
     let mut out = match r { Some(r) => hand_redeemers(r), None => vec![0xa0] };
     if let Some(d) = d { out.extend(d); }
@@ -147,28 +147,81 @@ fn gen_redeemers(rng: &mut Rng, form: u64) -> Redeemers {
         Redeemers::Map(m)
     }
 }
-/// raw bytes of a datum set "as they appear": optional tag 258, definite or indefinite array,
-/// elements in the library's encoding or in hand-written non-minimal forms
-fn gen_datums(rng: &mut Rng) -> Vec<u8> {
+/// A datum set: its wire bytes (optional tag 258, definite / indefinite / non-minimal array head,
+/// elements in the library's encoding or in hand-written non-minimal forms), the wire bytes of each
+/// element, and HOW the KeepRaw value handed to the implementation is constructed:
+///   0 decoded from the wire bytes            1 decoded, then to_owned()
+///   2 decoded, then deref_mut() (raw cleared) 5 decoded, then clear_raw()
+///   3 built in memory: KeepRaw::from(NonEmptySet(KeepRaw::from(value)..))  (what pallas-txbuilder does)
+///   4 built in memory around decoded elements (the elements keep their bytes)
+#[derive(Clone)]
+struct DSpec { wire: Vec<u8>, elems: Vec<Vec<u8>>, path: u8 }
+const PATHS: [&str; 6] = ["wire", "owned", "deref-mut", "in-memory", "in-memory-around-decoded", "clear-raw"];
+
+fn gen_datums(rng: &mut Rng) -> DSpec {
     let n = 1 + rng.below(3) as usize;
     let mut out = vec![];
     if rng.bool() { out.extend([0xd9, 0x01, 0x02]); }
     let indef = rng.bool();
     if indef { out.push(0x9f) } else if rng.chance(1, 4) { out.extend([0x98, n as u8]) } else { out.extend(head(4, n as u64)) }
+    let mut elems = vec![];
     for _ in 0..n {
-        if rng.chance(1, 4) {
+        let e = if rng.chance(1, 4) {
             let h: &str = *rng.pick(&["1805", "190005", "9f01ff", "d87980", "d8799fff", "5f4101ff", "c2420001", "a10102", "bf0102ff", "d866820080"]);
-            out.extend(hex::decode(h).unwrap());
+            hex::decode(h).unwrap()
         } else {
             let d = 1 + rng.below(3) as u32;
-            out.extend(minicbor::to_vec(&gen_pd(rng, d)).unwrap());
-        }
+            minicbor::to_vec(&gen_pd(rng, d)).unwrap()
+        };
+        out.extend(&e);
+        elems.push(e);
     }
     if indef { out.push(0xff) }
-    out
+    let path = *rng.pick(&[0u8, 0, 1, 2, 3, 3, 4, 5]);
+    DSpec { wire: out, elems, path }
 }
 
 type Datums<'b> = KeepRaw<'b, NonEmptySet<KeepRaw<'b, PlutusData>>>;
+
+/// the bytes the datum set contributes (= what the witness set serialises it to), derived from how
+/// the value was made, not from the KeepRaw accessors
+fn expected_datums(s: &DSpec) -> Vec<u8> {
+    match s.path {
+        0 | 1 => s.wire.clone(),
+        _ => {
+            let mut out = vec![0xd9, 0x01, 0x02];
+            out.extend(head(4, s.elems.len() as u64));
+            for e in &s.elems {
+                if s.path == 3 { out.extend(minicbor::to_vec(&minicbor::decode::<PlutusData>(e).unwrap()).unwrap()) } else { out.extend(e) }
+            }
+            out
+        }
+    }
+}
+fn build_datums<'a>(s: &'a DSpec) -> Option<Datums<'a>> {
+    match s.path {
+        0 => minicbor::decode::<Datums>(&s.wire).ok(),
+        1 => minicbor::decode::<Datums>(&s.wire).ok().map(|k| k.to_owned()),
+        2 => minicbor::decode::<Datums>(&s.wire).ok().map(|mut k| { let _ = std::ops::DerefMut::deref_mut(&mut k); k }),
+        5 => minicbor::decode::<Datums>(&s.wire).ok().map(|mut k| { k.clear_raw(); k }),
+        3 => {
+            let v: Vec<KeepRaw<PlutusData>> = s.elems.iter().map(|e| KeepRaw::from(minicbor::decode::<PlutusData>(e).unwrap())).collect();
+            Some(KeepRaw::from(NonEmptySet::from_vec(v).unwrap()))
+        }
+        _ => {
+            let v: Vec<KeepRaw<'a, PlutusData>> = s.elems.iter().map(|e| minicbor::decode::<KeepRaw<PlutusData>>(e).unwrap()).collect();
+            Some(KeepRaw::from(NonEmptySet::from_vec(v).unwrap()))
+        }
+    }
+}
+/// the KeepRaw value as the model's `kdatums`: (raw held, [(raw, value)]); elements omitted when raw is held
+fn coq_kd(k: &Datums) -> String {
+    if !k.raw_cbor().is_empty() { return format!("({},[])", coq_bytes(k.raw_cbor())); }
+    let items: Vec<String> = k.iter().map(|e| format!("({},{})", coq_bytes(e.raw_cbor()), coq_pd(e))).collect();
+    format!("([],[{}])", items.join(";"))
+}
+fn coq_okd(k: &Option<Datums>) -> String { coq_opt(k, coq_kd) }
+fn show_spec(d: &Option<DSpec>) -> String { match d { None => "none".into(), Some(s) => format!("{}:{}", PATHS[s.path as usize], hex(&s.wire)) } }
 
 fn blake(b: &[u8]) -> Vec<u8> { Hasher::<256>::hash(b).as_ref().to_vec() }
 
@@ -194,34 +247,55 @@ fn check_redeemers(cx: &mut Ctx, tag: &str, r: &Redeemers) {
 }
 
 /// ScriptData::hash on explicitly given fields
-fn check_hash(cx: &mut Ctx, tag: &str, r: &Option<Redeemers>, d: &Option<Vec<u8>>, lv: &Option<BTreeMap<u8, Vec<i64>>>) {
+fn check_hash(cx: &mut Ctx, tag: &str, r: &Option<Redeemers>, d: &Option<DSpec>, lv: &Option<BTreeMap<u8, Vec<i64>>>) {
     cx.hashes += 1;
-    let datums: Option<Datums> = match d {
-        Some(b) => match minicbor::decode::<Datums>(b) { Ok(x) => Some(x), Err(_) => return },
-        None => None,
-    };
-    if let (Some(k), Some(b)) = (&datums, d) {
-        if k.raw_cbor() != &b[..] { emit_oracle_fail("datums-as-they-appeared", &format!("datums={} kept={}", hex(b), hex(k.raw_cbor()))); }
+    let datums: Option<Datums> = match d { Some(s) => match build_datums(s) { Some(x) => Some(x), None => return }, None => None };
+    let db = d.as_ref().map(expected_datums);
+    if let (Some(k), Some(b)) = (&datums, &db) {
+        // the bytes the value serialises to (KeepRaw's Encode) are the expected ones
+        let ser = minicbor::to_vec(k).unwrap();
+        if ser != *b { emit_oracle_fail("datums-as-they-appeared", &format!("datums={} serialised={} expected={}", show_spec(d), hex(&ser), hex(b))); }
     }
+    let shown = coq_okd(&datums);
     let sd = ScriptData { redeemers: r.clone(), datums, language_views: lv.clone().map(LanguageViews) };
     let h = match guard_total(|| sd.hash().as_ref().to_vec()) { Out::Ok(h) => h, _ => { emit_oracle_fail("hash-formula", "hash() panicked"); return; } };
-    let pre = hand_preimage(r, d, lv);
+    let pre = hand_preimage(r, &db, lv);
     if h != blake(&pre) {
-        emit_oracle_fail("hash-formula", &format!("redeemers={} datums={} views={} implementation-hash={} blake2b256(ledger preimage {})={}",
-            coq_opt(r, coq_redeemers), coq_obytes(d), coq_opt(lv, coq_views), hex(&h), hex(&pre), hex(&blake(&pre))));
+        emit_oracle_fail(if d.as_ref().map_or(false, |s| s.path >= 2) { "hash-formula-in-memory-datums" } else { "hash-formula" },
+            &format!("redeemers={} datums={} views={} implementation-hash={} blake2b256(ledger preimage {})={}",
+            coq_opt(r, coq_redeemers), show_spec(d), coq_opt(lv, coq_views), hex(&h), hex(&pre), hex(&blake(&pre))));
     }
     if !cx.oracle_only {
-        emit_case(tag, &format!("(CHash {} {} {} {})", coq_opt(r, coq_redeemers), coq_obytes(d), coq_opt(lv, coq_views), coq_bytes(&pre)));
+        let t = match d { Some(s) if s.path >= 1 => format!("{}-datums-{}", tag, PATHS[s.path as usize]), _ => tag.to_string() };
+        emit_case(&t, &format!("(CHash {} {} {} {})", coq_opt(r, coq_redeemers), shown, coq_opt(lv, coq_views), coq_bytes(&pre)));
     }
 }
 
-/// ScriptData::build_for on a witness set decoded from bytes assembled here
-fn check_build(cx: &mut Ctx, tag: &str, r: &Option<Redeemers>, d: &Option<Vec<u8>>, lvo: &Option<BTreeMap<u8, Vec<i64>>>) {
+/// ScriptData::build_for on a witness set: decoded from bytes assembled here (datum paths 0/1),
+/// decoded and then touched through deref_mut / clear_raw (2/5), or built in memory as a struct
+/// literal with KeepRaw::from around redeemers and datums (3/4)
+fn check_build(cx: &mut Ctx, tag: &str, r: &Option<Redeemers>, d: &Option<DSpec>, lvo: &Option<BTreeMap<u8, Vec<i64>>>) {
     cx.builds += 1;
     let mut wbytes = head(5, r.is_some() as u64 + d.is_some() as u64);
-    if let Some(d) = d { wbytes.push(4); wbytes.extend(d); }
+    if let Some(s) = d { wbytes.push(4); wbytes.extend(&s.wire); }
     if let Some(r) = r { wbytes.push(5); wbytes.extend(minicbor::to_vec(r).unwrap()); }
-    let w: WitnessSet = match minicbor::decode(&wbytes) { Ok(w) => w, Err(e) => { emit_sample(&format!("witness set not decodable: {} {}", hex(&wbytes), e)); return; } };
+    let path = match d { Some(s) => s.path, None => (cx.builds % 3) as u8 * 2 };   // without datums: decoded / touched / in memory
+    let w: WitnessSet = if path == 3 || path == 4 {
+        let pd = match d { Some(s) => match build_datums(s) { Some(x) => Some(x), None => return }, None => None };
+        WitnessSet { vkeywitness: None, native_script: None, bootstrap_witness: None, plutus_v1_script: None,
+            plutus_data: pd, redeemer: r.clone().map(KeepRaw::from), plutus_v2_script: None, plutus_v3_script: None }
+    } else {
+        let mut w: WitnessSet = match minicbor::decode(&wbytes) { Ok(w) => w, Err(e) => { emit_sample(&format!("witness set not decodable: {} {}", hex(&wbytes), e)); return; } };
+        match path {
+            1 => { w.plutus_data = w.plutus_data.map(|k| k.to_owned()); w.redeemer = w.redeemer.map(|k| k.to_owned()); }
+            2 => { if let Some(k) = w.plutus_data.as_mut() { let _ = std::ops::DerefMut::deref_mut(k); } if let Some(k) = w.redeemer.as_mut() { let _ = std::ops::DerefMut::deref_mut(k); } }
+            5 => { if let Some(k) = w.plutus_data.as_mut() { k.clear_raw(); } if let Some(k) = w.redeemer.as_mut() { k.clear_raw(); } }
+            _ => {}
+        }
+        w
+    };
+    let db = d.as_ref().map(expected_datums);
+    let shown_d = coq_okd(&w.plutus_data);
     let lv_opt = lvo.clone().map(LanguageViews);
     let res = match guard_total(|| ScriptData::build_for(&w, &lv_opt).map(|sd| sd.hash().as_ref().to_vec())) {
         Out::Ok(x) => x,
@@ -232,16 +306,18 @@ fn check_build(cx: &mut Ctx, tag: &str, r: &Option<Redeemers>, d: &Option<Vec<u8
     }
     // ledger: views only together with redeemers
     let views = if r.is_some() { lvo.clone() } else { None };
-    let pre = if r.is_none() && d.is_none() { None } else { Some(hand_preimage(r, d, &views)) };
+    let pre = if r.is_none() && d.is_none() { None } else { Some(hand_preimage(r, &db, &views)) };
     if let (Some(h), Some(p)) = (&res, &pre) {
         if *h != blake(p) {
-            emit_oracle_fail("hash-formula", &format!("witness={} views={} implementation-hash={} blake2b256(ledger preimage {})={}",
-                hex(&wbytes), coq_opt(lvo, coq_views), hex(h), hex(p), hex(&blake(p))));
+            emit_oracle_fail(if path >= 2 && d.is_some() { "hash-formula-in-memory-datums" } else { "hash-formula" },
+                &format!("witness={} ({}) views={} implementation-hash={} blake2b256(ledger preimage {})={}",
+                hex(&wbytes), PATHS[path as usize], coq_opt(lvo, coq_views), hex(h), hex(p), hex(&blake(p))));
         }
     }
     if !cx.oracle_only {
         let shown = if res.is_some() { pre.clone() } else { None };
-        emit_case(tag, &format!("(CBuild {} {} {} {})", coq_opt(r, coq_redeemers), coq_obytes(d), coq_opt(lvo, coq_views), coq_obytes(&shown)));
+        let t = if path >= 1 { format!("{}-witness-{}", tag, PATHS[path as usize]) } else { tag.to_string() };
+        emit_case(&t, &format!("(CBuild {} {} {} {})", coq_opt(r, coq_redeemers), shown_d, coq_opt(lvo, coq_views), coq_obytes(&shown)));
     }
 }
 
@@ -271,6 +347,7 @@ fn test_vectors(cx: &mut Ctx) {
         // the same inputs through the model: decoded redeemers, datum bytes as captured
         let r: Option<Redeemers> = w.redeemer.as_ref().map(|k| k.clone().unwrap());
         let d: Option<Vec<u8>> = w.plutus_data.as_ref().map(|k| k.raw_cbor().to_vec());
+        let shown_d = coq_okd(&w.plutus_data);
         if let (Some(k), Some(r)) = (w.redeemer.as_ref(), &r) {
             if k.raw_cbor() != &minicbor::to_vec(r).unwrap()[..] { emit_stat("observation_redeemers_not_in_library_encoding", 1); }
         }
@@ -280,7 +357,7 @@ fn test_vectors(cx: &mut Ctx) {
             if *h != blake(p) { emit_oracle_fail("hash-formula", &format!("{}: implementation-hash={} blake2b256(ledger preimage)={}", name, hex(h), hex(&blake(p)))); }
         }
         if !cx.oracle_only {
-            emit_case("test-vector", &format!("(CBuild {} {} {} {})", coq_opt(&r, coq_redeemers), coq_obytes(&d), coq_opt(&lvo, coq_views), coq_obytes(&pre)));
+            emit_case("test-vector", &format!("(CBuild {} {} {} {})", coq_opt(&r, coq_redeemers), shown_d, coq_opt(&lvo, coq_views), coq_obytes(&pre)));
         }
     }
 }
@@ -293,19 +370,30 @@ fn main() {
     test_vectors(&mut cx);
 
     // every subset of {V1,V2,V3}, with fixed small cost vectors (negative and large coefficients)
+    let mut path_ctr = 0u32;
     for subset in 0..8u8 {
         let mut m = BTreeMap::new();
         if subset & 1 != 0 { m.insert(0u8, vec![1, -1, i64::MAX, i64::MIN, 24, -25]); }
-        if subset & 2 != 0 { m.insert(1u8, vec![0, 23, 255, 256, -256, -257]); }
-        if subset & 4 != 0 { m.insert(2u8, vec![-900, 65536, -4294967297]); }
+        if subset & 2 != 0 { m.insert(1u8, vec![0, 23, 255, 256, -256, -257, i64::MIN, i64::MAX]); }
+        if subset & 4 != 0 { m.insert(2u8, vec![-900, 65536, -4294967297, i64::MAX, i64::MIN, -1]); }
         check_views(&mut cx, "views-subset", &m);
         for form in 0..3u64 {
             let r = if form == 2 { None } else { Some(gen_redeemers(&mut rng, form)) };
             for with_d in [false, true] {
-                let d = if with_d { Some(gen_datums(&mut rng)) } else { None };
+                let d = if with_d { let mut s = gen_datums(&mut rng); s.path = (path_ctr % 6) as u8; path_ctr += 1; Some(s) } else { None };
                 check_build(&mut cx, "build-subset", &r, &d, &Some(m.clone()));
                 check_hash(&mut cx, "hash-subset", &r, &d, &Some(m.clone()));
             }
+        }
+    }
+    // every way of making the datum KeepRaw x {no redeemers, list, map}, through hash and build_for
+    for path in 0..6u8 {
+        for form in 0..3u64 {
+            let r = if form == 2 { None } else { Some(gen_redeemers(&mut rng, form)) };
+            let mut s = gen_datums(&mut rng); s.path = path;
+            let views = Some(BTreeMap::from([(0u8, vec![-1i64, i64::MIN]), (2u8, vec![i64::MAX, -25])]));
+            check_hash(&mut cx, "hash-paths", &r, &Some(s.clone()), &views);
+            check_build(&mut cx, "build-paths", &r, &Some(s), &views);
         }
     }
     // single keys around the head-width boundary and the whole key space at once
@@ -333,7 +421,7 @@ fn main() {
         let r = if form == 2 { None } else { Some(gen_redeemers(&mut rng, form)) };
         let d = if rng.bool() { Some(gen_datums(&mut rng)) } else { None };
         let lvo = if rng.chance(1, 6) { None } else { Some(m.clone()) };
-        if i < 3 { emit_sample(&format!("redeemers={} datums={} views={}", coq_opt(&r, coq_redeemers), coq_obytes(&d), coq_opt(&lvo, coq_views))); }
+        if i < 3 { emit_sample(&format!("redeemers={} datums={} views={}", coq_opt(&r, coq_redeemers), show_spec(&d), coq_opt(&lvo, coq_views))); }
         match rng.below(6) {
             0 => check_views(&mut cx, "views", &m),
             1 => { if let Some(r) = &r { check_redeemers(&mut cx, "redeemers", r) } else { check_views(&mut cx, "views", &m) } }
